@@ -158,7 +158,7 @@ func (p *parker) disarm() {
 // do (settle, advance the virtual clock to the next timer, repeat).
 func drainStore(w *run.Worker, s *asm.Store) {
 	for i := 0; i < 200; i++ {
-		if !run.Settle(20 * time.Second) {
+		if !run.Settle(90 * time.Second) {
 			w.Inconclusive("settle timed out while draining the previous lifetime")
 			return
 		}
@@ -398,7 +398,7 @@ func (e *env) newData(size int) []byte {
 // and while virtual timers are pending it advances the clock to the next one.
 func (e *env) drain() bool {
 	for i := 0; i < 200; i++ {
-		if !run.Settle(20 * time.Second) {
+		if !run.Settle(90 * time.Second) {
 			e.w.Inconclusive("settle timed out in C04 drain: " + run.ActiveGoroutines())
 			return false
 		}
@@ -785,7 +785,7 @@ func (e *env) run() {
 						e.objs = append(e.objs, o)
 					}
 				}
-				run.Settle(20 * time.Second)
+				run.Settle(90 * time.Second)
 				e.scanEvents() // ordering monitor sees NewBlock events issued while the state write is held
 				if s.BL.Pops.Load() > pops0 {
 					e.w.Count("pops_before_statewrite_observed", s.BL.Pops.Load()-pops0)
@@ -798,7 +798,7 @@ func (e *env) run() {
 				// regions must not be handed out by the rotations that follow.
 				if s.Gate.Waiting("state.write") > 0 && r.Chance(2, 3) {
 					s.Gate.ReleaseOne("state.write")
-					run.Settle(20 * time.Second)
+					run.Settle(90 * time.Second)
 					for k := r.Range(2, 5); k > 0; k-- {
 						data := e.newData(r.Range(block/2, block))
 						o := &objT{d: gen.SHA256Digest(e.inst, data), data: data}
@@ -806,7 +806,7 @@ func (e *env) run() {
 							e.objs = append(e.objs, o)
 						}
 					}
-					run.Settle(20 * time.Second)
+					run.Settle(90 * time.Second)
 					e.scanEvents()
 					e.w.Count("rotations_after_partial_state_write", 1)
 				}
@@ -910,7 +910,7 @@ func (e *env) identifyHeld(h *held) {
 	// A background refresh started by the Get may still be copying (it holds
 	// a writer reference on the target block until it is done): let it run
 	// to completion or to a point where it is parked before counting.
-	run.Settle(20 * time.Second)
+	run.Settle(90 * time.Second)
 	e.s.Lock.Lock()
 	defer e.s.Lock.Unlock()
 	for _, bw := range e.s.Alloc.Blocks() {
@@ -997,7 +997,7 @@ func (e *env) gatedWriter() {
 		return
 	}
 	// Identify the writer's block by its use count.
-	run.Settle(20 * time.Second)
+	run.Settle(90 * time.Second)
 	wb := int64(-1)
 	s.Lock.Lock()
 	for _, bw := range s.Alloc.Blocks() {
@@ -1041,7 +1041,7 @@ func (e *env) gatedWriter() {
 		close(gate)
 		opened = true
 		for round := 0; round < 6; round++ {
-			run.Settle(20 * time.Second)
+			run.Settle(90 * time.Second)
 			if e.park.parked() == 0 {
 				break
 			}
@@ -1062,7 +1062,7 @@ func (e *env) gatedWriter() {
 				if cfg.Persistent {
 					e.drain()
 				} else {
-					run.Settle(20 * time.Second)
+					run.Settle(90 * time.Second)
 				}
 				e.scanEvents()
 			}
